@@ -179,7 +179,138 @@ P2 = dict(P2, **PAGES)
 P1["src/limits.inc"] = "integer, parameter :: lim_beside = 1\n!! the limit kept beside the source\n"
 P1["inc/limits.inc"] = "integer, parameter :: lim_incdir = 2\n!! the limit kept in the include directory\ninteger :: only_in_incdir\n"
 P1["inc2/limits.inc"] = "integer, parameter :: lim_incdir2 = 3\n"
-PROJECTS = {"P1": P1, "P2": P2, "P3": P3}
+# a project that uses two external libraries documenting the same names, with types that carry equally named generic
+# bindings (own ones and ones inherited from a common base type) that are called
+P4 = {
+    "src/solver.f90": """module solver
+  !! solver, uses the kinds module of an external library
+  use kinds
+  implicit none
+  type(kind_t) :: the_kind
+  !! declared with a type both libraries document
+contains
+  subroutine solve()
+    !! calls what both libraries document
+    call setup()
+  end subroutine solve
+end module solver
+""",
+    "src/shapes.f90": """module shapes
+  !! shapes
+  implicit none
+  type base_t
+    !! base
+  contains
+    procedure :: run_i
+    generic :: run => run_i
+    !! run of base
+  end type base_t
+  type, extends(base_t) :: c1
+    !! c1
+  end type c1
+  type, extends(base_t) :: c2
+    !! c2
+  end type c2
+  type, extends(base_t) :: c3
+    !! c3
+  end type c3
+  type circle
+    !! circle
+  contains
+    procedure :: draw_c, draw_c2
+    generic :: draw => draw_c, draw_c2
+  end type circle
+  type square
+    !! square
+  contains
+    procedure :: draw_s, draw_s2
+    generic :: draw => draw_s, draw_s2
+  end type square
+  type ring
+    !! ring
+  contains
+    procedure :: draw_r, draw_r2
+    generic :: draw => draw_r, draw_r2
+  end type ring
+contains
+  subroutine run_i(self)
+    !! run_i
+    class(base_t) :: self
+  end subroutine run_i
+  subroutine draw_c(self)
+    !! draw_c
+    class(circle) :: self
+  end subroutine draw_c
+  subroutine draw_c2(self, n)
+    !! draw_c2
+    class(circle) :: self
+    integer :: n
+  end subroutine draw_c2
+  subroutine draw_s(self)
+    !! draw_s
+    class(square) :: self
+  end subroutine draw_s
+  subroutine draw_s2(self, n)
+    !! draw_s2
+    class(square) :: self
+    integer :: n
+  end subroutine draw_s2
+  subroutine draw_r(self)
+    !! draw_r
+    class(ring) :: self
+  end subroutine draw_r
+  subroutine draw_r2(self, n)
+    !! draw_r2
+    class(ring) :: self
+    integer :: n
+  end subroutine draw_r2
+  subroutine use_them(c, s, r, x1, x2, x3)
+    !! the caller
+    type(circle) :: c
+    type(square) :: s
+    type(ring) :: r
+    type(c1) :: x1
+    type(c2) :: x2
+    type(c3) :: x3
+    call r%draw()
+    call s%draw()
+    call c%draw()
+    call x3%run()
+    call x1%run()
+    call x2%run()
+  end subroutine use_them
+end module shapes
+""",
+}
+EXT_LIB = """module kinds
+  !! kinds of {lib}
+  implicit none
+  type kind_t
+    !! kind_t of {lib}
+    integer :: k
+  end type kind_t
+contains
+  subroutine setup()
+    !! setup of {lib}
+  end subroutine setup
+end module kinds
+"""
+_EXT_JSON = {}
+
+
+def external_descriptions():
+    """modules.json of the two libraries, produced once per process by FORD itself (default iteration orders)"""
+    if not _EXT_JSON:
+        for lib in ("liba", "libb"):
+            r = fordrun.build({"src/kinds.f90": EXT_LIB.format(lib=lib)}, dict(externalize=True, project=lib, graph=False), stage="write", proj_body="lib\n")
+            try:
+                _EXT_JSON[lib] = (r.out / "modules.json").read_text()
+            finally:
+                r.cleanup()
+    return _EXT_JSON
+
+
+PROJECTS = {"P1": P1, "P2": P2, "P3": P3, "P4": P4}
 # unqualified references from the project-wide context; `stack` names a type and an interface, `same` several procedures
 FRONT = "Front page. [[stack]] [[root_t]] [[shared]] [[main]] [[gamma]] [[same]] [[other]] [[one]] [[nosuch]]\n"
 
@@ -211,6 +342,7 @@ def build_once(pname, ch, opts, stale=None, perms=None, outdir="doc", rootname=N
     files = PROJECTS[pname]
     names = sorted(f for f in files if f.startswith("src/"))
     perms = perms or list(itertools.permutations(names))
+    ext = external_descriptions() if pname == "P4" else {}
     nd.install()
     nd.begin(ch)
     try:
@@ -222,6 +354,9 @@ def build_once(pname, ch, opts, stale=None, perms=None, outdir="doc", rootname=N
             root = root / rootname
         if any(f.startswith("pages/") for f in files):
             opts = dict(opts, page_dir="pages")
+        if ext:
+            fordrun.write_tree(root, {f"{lib}/modules.json": text for lib, text in ext.items()})
+            opts = dict(opts, external={lib: lib for lib in ext})
         if outdir != "doc":
             opts = dict(opts, output_dir=outdir)
         if stale == "other":
@@ -272,11 +407,11 @@ def explore_project(args):
                 for attr in ("usesgraph", "usedbygraph", "callsgraph", "calledbygraph", "inhergraph", "inherbygraph", "afferentgraph", "efferentgraph"):
                     g = getattr(e, attr, None)
                     if g is not None and hasattr(g, "dot"):
-                        snap[f"dot/{attr}/{e.name}"] = hashlib.sha1(g.dot.source.encode()).hexdigest()
+                        snap[f"dot/{attr}/{e.name}"] = hashlib.sha1(g.dot.source.replace(str(r.root), "ROOT").encode()).hexdigest()
             for attr in ("usegraph", "typegraph", "callgraph", "filegraph"):
                 g = getattr(p_, attr, None)
                 if g is not None and hasattr(g, "dot"):
-                    snap[f"dot/project/{attr}"] = hashlib.sha1(g.dot.source.encode()).hexdigest()
+                    snap[f"dot/project/{attr}"] = hashlib.sha1(g.dot.source.replace(str(r.root), "ROOT").encode()).hexdigest()
             return ("ok", snap, perm, events)
         finally:
             r.cleanup()
@@ -333,9 +468,12 @@ def fresh_process_runs(st: Stats, pname, runs):
     root = core.tmp_root() / f"c12-fresh-{os.getpid()}"
     shutil.rmtree(root, ignore_errors=True)
     fordrun.write_tree(root, PROJECTS[pname])
+    ext = external_descriptions() if pname == "P4" else {}
+    fordrun.write_tree(root, {f"{lib}/modules.json": text for lib, text in ext.items()})
+    ext_lines = "".join(("external: " if i == 0 else "          ") + f"{lib} = ./{lib}\n" for i, lib in enumerate(ext))
     snaps = {}
     for (seed, par, gdir) in runs:
-        (root / "proj.md").write_text("project: fresh\npreprocess: false\ngraph: true\nsearch: false\ninclude: ./inc\n         ./inc2\n" + f"parallel: {par}\n" + ("graph_dir: ./graphs\n" if gdir else "") + ("page_dir: ./pages\n" if any(f.startswith("pages/") for f in PROJECTS[pname]) else "")
+        (root / "proj.md").write_text("project: fresh\npreprocess: false\ngraph: true\nsearch: false\ninclude: ./inc\n         ./inc2\n" + ext_lines + f"parallel: {par}\n" + ("graph_dir: ./graphs\n" if gdir else "") + ("page_dir: ./pages\n" if any(f.startswith("pages/") for f in PROJECTS[pname]) else "")
                                       + "creation_date: DATE\nyear: 2000\n\n" + FRONT)
         env = dict(os.environ, PYTHONHASHSEED=str(seed), PYTHONPATH=str(core.REPO), FORD_DEBUGGING="1")
         out = root / "doc"
@@ -484,15 +622,16 @@ def main(tier, replay_path=None):
             fresh_process_runs(st, pname, [(seed, par, gd) for seed in range(8) for par in (0, 2, 8) for gd in (False, True)] + [(0, 0, False), (0, 2, True)])
     else:
         fresh_process_runs(st, "P1", [(0, 0, False), (1, 2, False), (2, 8, False), (0, 0, True), (1, 2, True), (2, 8, True)])
+        fresh_process_runs(st, "P4", [(0, 0, False), (1, 2, False), (2, 0, False), (3, 0, False)])
     total.merge(st)
     ev = total.extra.get("set_iteration_events_default_run", [])
     return core.finish(
         PROP, tier, "model_checking", total, t0,
-        rule=(f"2 multi-file projects x option sets x (all permutations of the file order + every run with <= {bound} deviating set-iteration events; "
+        rule=(f"{len(PROJECTS)} multi-file projects (one of them using two external libraries that document the same names) x option sets x (all permutations of the file order + every run with <= {bound} deviating set-iteration events; "
               "deviation alternatives: reversed / first two swapped / rotated) + stale-output histories; oracle = byte equality with the default schedule. "
               f"set-iteration events per default run: {ev}. traces_validated_against_impl counts in-process executions; fresh_process_runs are real `python -m ford` runs under PYTHONHASHSEED x parallel in {0, 2, 8} x graph_dir set / unset"),
         assumptions=[
-            "the set shim covers `set(...)` calls in ford.sourceform/graphs/fortran_project/output and toposort; set literals/comprehensions exist only in find_all_files, which is wrapped",
+            "the set shim covers `set(...)` calls in every module of ford and in toposort; set literals/comprehensions exist only in find_all_files, which is wrapped",
             "creation_date and year are pinned; print_creation_date stays off",
             "`dot` is stubbed in-process (fresh-process runs use the real dot)",
         ],
